@@ -100,8 +100,39 @@ def otx(s):
     return None if s is None else tx(s)
 
 
+_OCTET_KIND = [None]
+
+
+class octet_kind:
+    """while active, octet-string fields built by the *_from_json functions are objects of another legal kind: 'bytearray' (a fresh one per
+    field), 'shared' (ONE bytearray object for all fields with equal content), 'memoryview'.  Default: bytes"""
+
+    def __init__(self, kind):
+        self.kind = kind
+        self.cache = {}
+
+    def make(self, b: bytes):
+        if self.kind == "bytearray":
+            return bytearray(b)
+        if self.kind == "shared":
+            return self.cache.setdefault(b, bytearray(b))
+        if self.kind == "memoryview":
+            return memoryview(bytearray(b))
+        return b
+
+    def __enter__(self):
+        self.prev = _OCTET_KIND[0]
+        _OCTET_KIND[0] = self
+        return self
+
+    def __exit__(self, *a):
+        _OCTET_KIND[0] = self.prev
+
+
 def unhx(s):
-    return bytes.fromhex(s)
+    b = bytes.fromhex(s)
+    k = _OCTET_KIND[0]
+    return b if k is None else k.make(b)
 
 
 def untx(s):
